@@ -124,7 +124,11 @@ def run(R):
     stop = R.body("C19.stop", SM + "stop::{closure#0}")
     if stop is not None:
         g_stopped = CallGuard([SC + "stop"], ("Ok",), "service_control.stop is Ok")
-        g_gone = CallGuard([SC + "get_process_pid"], ("Err",), "process not found")
+        # "already gone" must be the lookup's positive answer (ServiceProcessNotFound), not just any failure of the lookup:
+        # with OS calls failing at arbitrary points, a lookup fault while the process lives must not lead to Stopped being recorded
+        _names = T.variant_names(F, "ant_service_management::error::Error") or {}
+        _idx = {v: k for k, v in _names.items()}
+        g_gone = CallGuard([SC + "get_process_pid"], ("Err", "ServiceProcessNotFound#%d" % _idx.get("ServiceProcessNotFound", -1)), "process lookup says ServiceProcessNotFound")
         # `.is_ok()` form: is_ok false ⇒ not found
         R.gate("C19.stop", stop, CallSink(SSA + "on_stop"), [[g_stopped, g_gone]], descr="stop: on_stop only after the OS stopped the service or the process was already gone")
     upg = R.body("C19.upgrade", SM + "upgrade::{closure#0}")
@@ -153,6 +157,10 @@ def run(R):
         idx = {v: k for k, v in names.items()}
         tol = [CallGuard([SC + "uninstall"], ("Err", "%s#%d" % (v, idx[v])), "uninstall failed with %s" % v) for v in ("ServiceRemovedManually", "ServiceDoesNotExists") if v in idx]
         R.gate("C19.remove.os", rem, CallSink(SSA + "on_remove"), [[g_un] + tol], descr="remove: on_remove only after uninstall succeeded or the service was already gone")
+        # the "marked running but actually stopped" correction (on_stop inside remove) needs the same positive answer
+        _i2 = idx.get("ServiceProcessNotFound", -1)
+        R.gate("C19.remove.on_stop", rem, CallSink(SSA + "on_stop"), [[CallGuard([SC + "get_process_pid"], ("Err", "ServiceProcessNotFound#%d" % _i2), "process lookup says ServiceProcessNotFound")]],
+               descr="remove records Stopped for a service marked Running only if the lookup positively reports the process gone")
         # not running: the Running && process-alive branch returns an error
         g = cfg_of(rem)
         alive = CallGuard([SC + "get_process_pid"], ("Ok",), "process is alive")
